@@ -114,6 +114,8 @@ func init() {
 			is = append(is, resizePar("dbgpar/Map", false, 0, []int{0, 1, 5, 7}, 1, 1, 2)...)
 			is = append(is, resizePar("dbgpar/Map", false, 1, []int{1}, 2, 0, 2)...)
 			is = append(is, resizePar("dbgpar/MapOf/r3", true, 0, []int{5}, 1, 0, 3)...)
+			is = append(is, resizePar("dbgpar/clr/MapOf", true, 0, []int{8}, 1, 1, 2)...)
+			is = append(is, resizePar("dbgpar/clr/Map", false, 0, []int{8}, 1, 1, 2)...)
 			return is
 		},
 	})
@@ -421,15 +423,18 @@ func init() {
 	register(&PropSpec{
 		ID:        "C03",
 		Technique: "context-bounded symbolic scheduling: both goroutines' go/ssa code executed symbolically in rounds whose boundaries are free bit-vector variables (one SMT query = all interleavings within the bound); linearizability oracle vs reference map; schedules replayed natively under a cooperative scheduler",
-		Bounds:    map[string]interface{}{"threads": 2, "ops_per_thread": "1 (A||B) and 1||2 (A || B1;B2)", "rounds": 2, "table": "1 root bucket, chain 1, <=1 pre-state entry", "resize": "executions requesting grow/shrink are outside these instances; Clear pairs separately", "unwind": 2},
+		Bounds:    map[string]interface{}{"threads": 2, "ops_per_thread": "1 (A||B) and 1||2 (A || B1;B2)", "rounds": 2, "table": "1 root bucket, chain 1, <=1 pre-state entry", "resize": "par2/par12: executions requesting grow/shrink are outside; Clear pairs separately; resize||op: one whole-table grow 1->2 (or shrink 2->1) buckets started directly, overlapping one call, <=1 pre-state entry", "unwind": "2 (3 for resize||op)"},
 		Stubs:     commonStubs,
-		Outside:   []string{"more than 2 goroutines", "more than 3 context switches (2 rounds)", "grow/shrink overlapping the calls (see DESIGN.md: formula size)", "tables with more than 1 root bucket in concurrent instances"},
+		Outside:   []string{"more than 2 goroutines", "more than 3 context switches (2 rounds)", "a grow started from inside a Store (the request path) overlapping another call, grows of tables with more than 1 root bucket, more than 1 pre-state entry during a resize (see DESIGN.md: formula size)", "tables with more than 2 root buckets in concurrent instances"},
 		Quick: func() []eng.Instance {
 			is := mapPar2("C03/Map/par2", "VxH_Map_par2", quickPairs, []int64{1, 1, 1, 1}, 2)
 			is = append(is,
 				eng.Instance{Name: "C03/Map/par12/Load||Delete;Store", Pkg: "xsync", Func: "VxH_Map_par12", Args: []int64{0, 7, 1, 1, 1, 1, 1}, Cfg: parCfgShrinkReq(2)},
 				eng.Instance{Name: "C03/Map/par12/Load||Store;Delete", Pkg: "xsync", Func: "VxH_Map_par12", Args: []int64{0, 1, 7, 1, 1, 1, 1}, Cfg: parCfgShrinkReq(2)},
 			)
+			// a whole-table grow 1->2 buckets overlapping one call
+			is = append(is, resizePar("C03/Map", false, 0, []int{8}, 1, 1, 2)...)
+			is = append(is, resizePar("C03/Map", false, 0, []int{1}, 1, 0, 2)...)
 			return is
 		},
 		Thorough: func() []eng.Instance {
@@ -439,6 +444,8 @@ func init() {
 				is = append(is, eng.Instance{Name: fmt.Sprintf("C03/Map/par12/%s||%s;%s", mapOps[t[0]], mapOps[t[1]], mapOps[t[2]]), Pkg: "xsync", Func: "VxH_Map_par12",
 					Args: []int64{int64(t[0]), int64(t[1]), int64(t[2]), 1, 1, 1, 1}, Cfg: parCfgShrinkReq(2)})
 			}
+			is = append(is, resizePar("C03/Map", false, 0, []int{0, 1, 5, 7}, 1, 1, 2)...)
+			is = append(is, resizePar("C03/Map", false, 1, []int{1}, 2, 0, 2)...)
 			return is
 		},
 	})
@@ -451,11 +458,15 @@ func init() {
 		Quick: func() []eng.Instance {
 			is := mapPar2("C04/MapOf/par2", "VxH_MapOf_par2", quickPairs, []int64{1, 1, 1, 1, 2}, 2)
 			is = append(is, eng.Instance{Name: "C04/MapOf/par12/Load||Delete;Store", Pkg: "xsync", Func: "VxH_MapOf_par12", Args: []int64{0, 7, 1, 1, 1, 1, 1, 2}, Cfg: parCfgShrinkReq(2)})
+			// a whole-table grow 1->2 buckets overlapping one call
+			is = append(is, resizePar("C04/MapOf", true, 0, []int{8, 1}, 1, 1, 2)...)
 			return is
 		},
 		Thorough: func() []eng.Instance {
 			is := mapPar2("C04/MapOf/par2", "VxH_MapOf_par2", allPairs(parOps), []int64{1, 1, 1, 1, 2}, 2)
 			is = append(is, mapPar2("C04/MapOf/par2+Clear", "VxH_MapOf_par2", [][2]int{{8, 0}, {8, 1}, {8, 7}, {8, 8}}, []int64{1, 1, 1, 1, 2}, 2)...)
+			is = append(is, resizePar("C04/MapOf", true, 0, []int{0, 2, 5, 6, 7}, 1, 1, 2)...)
+			is = append(is, resizePar("C04/MapOf", true, 1, []int{1, 7}, 2, 1, 2)...)
 			return is
 		},
 	})
